@@ -937,7 +937,10 @@ class Engine:
                 r = Eq(ia, ib)
                 return Not(r) if isinstance(op, ast.IsNot) else r
             if is_sym(a) or is_sym(b):
-                if is_sym(a) and is_sym(b):
+                code = self._enum_code(a, b)
+                if code is not None:
+                    r = code
+                elif is_sym(a) and is_sym(b):
                     r = a == b
                 elif isinstance(a, (bool, int)) or isinstance(b, (bool, int)):
                     # `x is True/False` on symbolic bools
@@ -998,11 +1001,24 @@ class Engine:
             return e
         return r
 
+    # a symbolic integer that may also stand for a member of a plain Enum (a duration that is a number of milliseconds or
+    # FrameDuration.DYNAMIC): the member has a reserved code outside the numbers' range, registered per engine
+    enum_codes = {}
+
+    def _enum_code(self, a, b):
+        for x, y in ((a, b), (b, a)):
+            if isinstance(y, EnumV) and (y.cls, y.name) in self.enum_codes and is_sym(x) and z3.is_int(x):
+                return x == self.enum_codes[(y.cls, y.name)]
+        return None
+
     def eq(self, a, b, s=None):
         if isinstance(a, Rec):
             a = a.astuple()
         if isinstance(b, Rec):
             b = b.astuple()
+        code = self._enum_code(a, b)
+        if code is not None:
+            return code
         if isinstance(a, EnumV) and a.cls in self.int_enums:
             a = a.value
         if isinstance(b, EnumV) and b.cls in self.int_enums:
@@ -2092,6 +2108,12 @@ def _isinstance1(self, v, name, s):
         if z3.is_bool(v):
             return name in ("bool", "int")
         if z3.is_int(v):
+            codes = [c for (ec, _), c in self.enum_codes.items()]
+            if codes and name == "int":
+                return And(*[v != c for c in codes])
+            mine = [c for (ec, _), c in self.enum_codes.items() if ec == name]
+            if mine:
+                return Or(*[v == c for c in mine])
             return name == "int"
         if z3.is_real(v):
             return name == "float"
